@@ -1,6 +1,8 @@
+pub mod accept;
 pub mod bodycmp;
 pub mod cond;
 pub mod date;
+pub mod gzip;
 pub mod multipart;
 pub mod range;
 pub mod serve;
